@@ -1075,6 +1075,55 @@ func (g *Gen) block(t *Type, outer *scope, d int, fx bool, funcTop bool) *Block 
 			b.Stmts = append(b.Stmts, &LetDestr{names, e})
 			pend = append(pend, pending{len(b.Stmts) - 1, us})
 			g.feat("destructuring-let")
+		case k < 8 && fx && g.P.Stateful && g.P.SliceLib && g.R.Chance(0.12):
+			// slice values that share storage (a PopLast prefix of a computed slice; two values grown
+			// from one computed slice) are extended by library calls, and ALL of them are shown
+			// afterwards: every value keeps the contents it had
+			{
+				base := g.letName(sc)
+				src := &SliceLit{Elem: TInt}
+				for q, nq := 0, 3+g.R.Intn(3); q < nq; q++ {
+					src.Elems = append(src.Elems, &IntLit{g.R.Intn(9)})
+				}
+				var be Expr = src
+				if g.P.Lambdas && g.R.Bool() {
+					x := g.fresh("x")
+					be = call("slice.Map", g.lam([]Param{{Name: x, T: TInt}}, &BinOp{"+", v(x), &IntLit{1}}), src)
+				}
+				b.Stmts = append(b.Stmts, &Let{base, be})
+				sc.add(base, TSlice(TInt))
+				front := g.letName(sc)
+				b.Stmts = append(b.Stmts, &Let{front, call("slice.PopLast", v(base))})
+				sc.add(front, TSlice(TInt))
+				grow := func(from string, k int) Expr {
+					one := &SliceLit{Elem: TInt, Elems: []Expr{&IntLit{90 + k}}}
+					switch g.R.Intn(4) {
+					case 0:
+						return call("slice.Append", v(from), one)
+					case 1:
+						return call("slice.PushLast", &IntLit{90 + k}, v(from))
+					case 2:
+						return call("slice.Concat", &SliceLit{Elem: TSlice(TInt), Elems: []Expr{v(from), one}})
+					}
+					return call("slice.PushHead", &IntLit{90 + k}, v(from))
+				}
+				names := []string{base, front}
+				for q := 0; q < 2; q++ {
+					n := g.letName(sc)
+					b.Stmts = append(b.Stmts, &Let{n, grow(core.Pick(g.R, []string{front, front, base}), q)})
+					sc.add(n, TSlice(TInt))
+					names = append(names, n)
+				}
+				for _, n := range names {
+					for _, vi := range sc.visible(nil) {
+						if vi.name == n {
+							*vi.used = true
+						}
+					}
+					b.Stmts = append(b.Stmts, &ExprStmt{call("frt.Println", g.show(TSlice(TInt), v(n)))})
+				}
+				g.feat("shared-storage-group")
+			}
 		case k < 8 && fx && g.P.Stateful && g.R.Chance(0.25):
 			// a mutable library object used in a straight line: buffer or dictionary
 			if g.R.Bool() {
@@ -1304,6 +1353,12 @@ func (g *Gen) unitExpr(sc *scope, d int) Expr {
 		// elif / else is never an else-less `if` (known finding C06/dangling-else)
 		g.feat("unit-if-else")
 		e := &If{Cond: g.expr(TBool, sc, d-1, true), Then: g.unitBranch(sc, d-1)}
+		if _, isIf := e.Then.Result.(*If); !isIf && g.R.Chance(0.35) {
+			// often the then branch ends with a ONE-LINE else-less if: the else below is the outer one's
+			e.Then.Stmts = append(e.Then.Stmts, &ExprStmt{e.Then.Result})
+			e.Then.Result = &If{Cond: g.expr(TBool, sc, 1, true), Then: ExprBlock(call("trace", &StrLit{g.tag()})), OneLine: true}
+			g.feat("one-line-else-less-if-before-else")
+		}
 		for g.R.Chance(0.3) && len(e.Elifs) < 2 {
 			e.Elifs = append(e.Elifs, Elif{g.expr(TBool, sc, d-1, true), g.unitBranch(sc, d-1)})
 		}
@@ -1326,6 +1381,14 @@ func (g *Gen) unitExpr(sc *scope, d int) Expr {
 func (g *Gen) unitBranch(sc *scope, d int) *Block {
 	b := g.block(TUnit, sc, d, true, false)
 	if i, ok := b.Result.(*If); ok && i.Else == nil {
+		_, nested := i.Then.Result.(*If)
+		if len(i.Elifs) == 0 && len(i.Then.Stmts) == 0 && !nested && inlineOK(i.Then.Result) && inlineOK(i.Cond) && g.R.Bool() {
+			// written on ONE line in every layout, the else-less if ends with its line: the else /
+			// elif that follows belongs to the enclosing if (the several-line form is known finding C06/4)
+			i.OneLine = true
+			g.feat("one-line-else-less-if-before-else")
+			return b
+		}
 		b.Stmts = append(b.Stmts, &ExprStmt{b.Result})
 		b.Result = call("trace", &StrLit{g.tag()})
 	}
